@@ -83,31 +83,7 @@ def run(chk, repo):
     chk.ob('C02.b', 'limit predicate: disabled at -1, strict > limit', nh.where, ok, 'nodes_have_too_many_variants altered', key=nh.qual, fn=nh.qual)
 
     # ------------------------------------------------------------------ c
-    chk.rule('C02.c', 'R-EFFECT: timeout retry tightens only the complexity knobs, on a copy', 4)
-    r = repo.func('cli.call_variant_peptide:caller_reducer')
-    chk.uses(r)
-    h = [h for t in walk_no_nested(r.node) if isinstance(t, ast.Try) for h in t.handlers]
-    if len(h) != 1:
-        raise AnalysisError('anchor=caller_reducer: single TimeoutError handler expected')
-    ws = G.writes_in(h[0].body)
-    attr_writes = sorted(unparse(w[2].targets[0]) for w in ws if w[1] == 'attr')
-    chk.ob('C02.c', 'retry writes only p.max_variants_per_node and p.additional_variants_per_misc', repo.loc(r, h[0]),
-           attr_writes == ['p.additional_variants_per_misc', 'p.max_variants_per_node'],
-           f"attribute writes in the retry handler: {attr_writes} (a retry may alter enzyme / limits / flags)", key=r.qual + '::attr-writes', fn=r.qual)
-    txt = [norm_stmt(s) for s in h[0].body]
-    ok = "p = copy.copy(new_dispatch['cleavage_params'])" in txt and 'new_dispatch = copy.copy(dispatch)' in txt and \
-        "new_dispatch['cleavage_params'] = p" in txt and 'dispatch = new_dispatch' in txt
-    chk.ob('C02.c', 'parameters and dispatch are copied before being modified', repo.loc(r, h[0]), ok,
-           'the retry mutates the shared dispatch / cleavage parameters in place', key=r.qual + '::copies', fn=r.qual)
-    item_writes = sorted(unparse(w[2].targets[0]) for w in ws if w[1] == 'item')
-    chk.ob('C02.c', "only dispatch['cleavage_params'] is replaced", repo.loc(r, h[0]), item_writes == ["new_dispatch['cleavage_params']"],
-           f"dispatch entries replaced: {item_writes}", key=r.qual + '::item-writes', fn=r.qual)
-    # tightening direction: new limits come from the tail of the given tuples or (current - 1)
-    ok = 'max_variants_per_node = max_variants_per_node[1:]' in txt and 'additional_variants_per_misc = additional_variants_per_misc[1:]' in txt and \
-        'p.max_variants_per_node = max_variants_per_node[0]' in txt and 'p.additional_variants_per_misc = additional_variants_per_misc[0]' in txt and \
-        'max_variants_per_node = (p.max_variants_per_node - 1,)' in [norm_stmt(s) for s in ast.walk(h[0]) if isinstance(s, ast.Assign)]
-    chk.ob('C02.c', 'next limits = next configured value, else current - 1 (raise at 0)', repo.loc(r, h[0]), ok,
-           'retry limit schedule altered', key=r.qual + '::schedule', fn=r.qual)
+    retry_effects(chk, repo, 'C02.c')
 
     # ------------------------------------------------------------------ d
     chk.rule('C02.d', "R-GUARD: X skip / * raise before storage (same obligations as C04.c)", 2)
@@ -177,3 +153,50 @@ def run(chk, repo):
                f"the traversals disagree on the pop-collapse flag that forbids starting a peptide at a node: {flags} "
                "(an n-terminally pop-collapsed node is the tail of a split node; starting there invents peptides that begin mid-fragment)",
                key=f"{q}::whole-node-start-flag", fn=q)
+
+    # ------------------------------------------------------------------ g
+    chk.rule('C02.g', 'R-LOCKSTEP: coordinates of joined nodes are shifted by the cumulative length accumulator', 3)
+    for q in (VPD + 'MiscleavedNodes.join_miscleaved_peptides', VPD + 'MiscleavedNodes.create_peptide_segments'):
+        g = repo.func(q)
+        chk.uses(g)
+        for lp in [l for l in walk_no_nested(g.node) if isinstance(l, ast.For)]:
+            accs = [unparse(n.target) for n in lp.body if isinstance(n, ast.AugAssign) and isinstance(n.op, ast.Add) and 'len(' in unparse(n.value)]
+            shifts = [c for c in G.find_calls(lp, 'shift')]
+            if not accs or not shifts:
+                continue
+            for c in shifts:
+                a = unparse(c.args[0]) if c.args else ''
+                chk.ob('C02.g', f"{g.name}: {unparse(c)[:50]} uses the cumulative offset {accs}", repo.loc(g, c), a in accs,
+                       f"'{unparse(c)}' shifts a per-node coordinate by '{a}', which is not the accumulator {accs} advanced by every joined node: "
+                       "positions in the third and later nodes of a series are misplaced (e.g. Sec truncation cuts at an arbitrary residue)",
+                       key=f"{q}::shift::{unparse(c.func.value)[:30]}", fn=g.qual)
+
+
+def retry_effects(chk, repo, rid):
+    """R-EFFECT on the timeout retry (shared with C06.f)."""
+    chk.rule(rid, 'R-EFFECT: timeout retry tightens only the complexity knobs, on a copy', 4)
+    r = repo.func('cli.call_variant_peptide:caller_reducer')
+    chk.uses(r)
+    h = [h for t in walk_no_nested(r.node) if isinstance(t, ast.Try) for h in t.handlers]
+    if len(h) != 1:
+        raise AnalysisError('anchor=caller_reducer: single TimeoutError handler expected')
+    ws = G.writes_in(h[0].body)
+    attr_writes = sorted(unparse(w[2].targets[0]) for w in ws if w[1] == 'attr')
+    chk.ob(rid, 'retry writes only p.max_variants_per_node and p.additional_variants_per_misc', repo.loc(r, h[0]),
+           attr_writes == ['p.additional_variants_per_misc', 'p.max_variants_per_node'],
+           f"attribute writes in the retry handler: {attr_writes} (a retry may alter enzyme / limits / flags)", key=r.qual + '::attr-writes', fn=r.qual)
+    txt = [norm_stmt(s) for s in h[0].body]
+    ok = "p = copy.copy(new_dispatch['cleavage_params'])" in txt and 'new_dispatch = copy.copy(dispatch)' in txt and \
+        "new_dispatch['cleavage_params'] = p" in txt and 'dispatch = new_dispatch' in txt
+    chk.ob(rid, 'parameters and dispatch are copied before being modified', repo.loc(r, h[0]), ok,
+           'the retry mutates the shared dispatch / cleavage parameters in place', key=r.qual + '::copies', fn=r.qual)
+    item_writes = sorted(unparse(w[2].targets[0]) for w in ws if w[1] == 'item')
+    chk.ob(rid, "only dispatch['cleavage_params'] is replaced", repo.loc(r, h[0]), item_writes == ["new_dispatch['cleavage_params']"],
+           f"dispatch entries replaced: {item_writes}", key=r.qual + '::item-writes', fn=r.qual)
+    # tightening direction: new limits come from the tail of the given tuples or (current - 1)
+    ok = 'max_variants_per_node = max_variants_per_node[1:]' in txt and 'additional_variants_per_misc = additional_variants_per_misc[1:]' in txt and \
+        'p.max_variants_per_node = max_variants_per_node[0]' in txt and 'p.additional_variants_per_misc = additional_variants_per_misc[0]' in txt and \
+        'max_variants_per_node = (p.max_variants_per_node - 1,)' in [norm_stmt(s) for s in ast.walk(h[0]) if isinstance(s, ast.Assign)]
+    chk.ob(rid, 'next limits = next configured value, else current - 1 (raise at 0)', repo.loc(r, h[0]), ok,
+           'retry limit schedule altered', key=r.qual + '::schedule', fn=r.qual)
+
